@@ -145,14 +145,7 @@ func (r *SourceRunner) Start(ctx context.Context) error {
 		cancel(result)
 	}()
 
-	r.keyEventChannel = batching.NewReorderFetcher(ctx, batching.NewReorderFetcherParams[[]byte, []*handlerpb.KeyedEvent]{
-		Batcher: batching.NewEventBatcher[[]byte](ctx, r.batchingParams),
-		FetchBatch: func(ctx context.Context, events [][]byte) ([][]*handlerpb.KeyedEvent, error) {
-			return r.userHandler.KeyEventBatch(ctx, events)
-		},
-		ErrChan:    r.errChan,
-		BufferSize: r.batchingParams.MaxSize,
-	})
+	r.keyEventChannel = r.newKeyEventChannel(ctx)
 
 	close(r.initDone) // Signal that initialization is done
 
@@ -178,6 +171,19 @@ func (r *SourceRunner) Start(ctx context.Context) error {
 	return nil
 }
 
+// newKeyEventChannel creates the stage that keys source records with the user
+// handler, asynchronously and in order.
+func (r *SourceRunner) newKeyEventChannel(ctx context.Context) *batching.ReorderFetcher[[]byte, []*handlerpb.KeyedEvent] {
+	return batching.NewReorderFetcher(ctx, batching.NewReorderFetcherParams[[]byte, []*handlerpb.KeyedEvent]{
+		Batcher: batching.NewEventBatcher[[]byte](ctx, r.batchingParams),
+		FetchBatch: func(ctx context.Context, events [][]byte) ([][]*handlerpb.KeyedEvent, error) {
+			return r.userHandler.KeyEventBatch(ctx, events)
+		},
+		ErrChan:    r.errChan,
+		BufferSize: r.batchingParams.MaxSize,
+	})
+}
+
 // Stop signals the SR to shutdown. This is safe to call multiple times.
 func (r *SourceRunner) Stop() error {
 	r.stop(nil)
@@ -197,6 +203,14 @@ func (r *SourceRunner) HandleDeploy(ctx context.Context, msg *workerpb.DeploySou
 	if len(msg.Sources) != 1 {
 		panic("exactly one source required")
 	}
+
+	// A runner that is deployed again (the job recovers on an assembly that this
+	// runner is part of) stops the loop of its previous deployment and starts with
+	// an empty pipeline: what the previous deployment read, and what it left in
+	// the pipeline, belongs to the assembly that is being replaced.
+	r.stopLoop()
+	r.outputStream = make(chan *workerpb.Event, 1_000)
+	r.keyEventChannel = r.newKeyEventChannel(r.runnerCtx)
 
 	r.watermarkTicker = time.NewTicker(time.Millisecond * 200)
 
@@ -224,10 +238,17 @@ func (r *SourceRunner) HandleDeploy(ctx context.Context, msg *workerpb.DeploySou
 		}
 		cancel()
 	}()
+	// The output goroutine works on this deployment's pipeline and operators only.
+	outputStream, keyEvents, operators := r.outputStream, r.keyEventChannel, r.operators
 	go func() {
-		for opEvent := range r.outputStream {
-			if err := r.sendOperatorEvent(opEvent); err != nil {
-				r.errChan <- err
+		for {
+			select {
+			case <-deploymentCtx.Done():
+				return
+			case opEvent := <-outputStream:
+				if err := r.sendOperatorEvent(deploymentCtx, keyEvents, operators, opEvent); err != nil {
+					r.errChan <- err
+				}
 			}
 		}
 	}()
@@ -274,6 +295,10 @@ func (r *SourceRunner) processEvents(ctx context.Context) error {
 
 			// Execute the read function to get events
 			events, err := readFunc()
+			if ctx.Err() != nil {
+				// The deployment ended while the source was being read
+				return nil
+			}
 			if err != nil {
 				if connectors.IsRetryable(err) {
 					r.Logger.Error("failed reading source, will retry", "err", err)
@@ -295,14 +320,19 @@ func (r *SourceRunner) HandleStartCheckpoint(ctx context.Context, id uint64) {
 	r.checkpointBarrier <- &workerpb.CheckpointBarrier{CheckpointId: id}
 }
 
-func (r *SourceRunner) sendOperatorEvent(event *workerpb.Event) error {
+func (r *SourceRunner) sendOperatorEvent(ctx context.Context, keyEvents *batching.ReorderFetcher[[]byte, []*handlerpb.KeyedEvent], operators *operatorCluster, event *workerpb.Event) error {
 	switch typedEvent := event.Event.(type) {
 	case *workerpb.Event_KeyedEvent:
 		// Get the async result for this placeholder event
-		asyncResult := <-r.keyEventChannel.Output
+		var asyncResult []*handlerpb.KeyedEvent
+		select {
+		case asyncResult = <-keyEvents.Output:
+		case <-ctx.Done():
+			return nil // the deployment ended
+		}
 		for _, event := range asyncResult {
 			r.watermarker.AdvanceTime(event.Timestamp.AsTime())
-			r.operators.routeEvent(event.Key, &workerpb.Event{
+			operators.routeEvent(event.Key, &workerpb.Event{
 				Event: &workerpb.Event_KeyedEvent{
 					KeyedEvent: event,
 				},
@@ -311,14 +341,14 @@ func (r *SourceRunner) sendOperatorEvent(event *workerpb.Event) error {
 		return nil
 	case *workerpb.Event_Watermark:
 		typedEvent.Watermark.Timestamp = timestamppb.New(r.watermarker.CurrentWatermark())
-		return r.operators.broadcastEvent(typedEvent.Watermark)
+		return operators.broadcastEvent(typedEvent.Watermark)
 	case *workerpb.Event_CheckpointBarrier:
-		return r.operators.broadcastEvent(typedEvent.CheckpointBarrier)
+		return operators.broadcastEvent(typedEvent.CheckpointBarrier)
 	case *workerpb.Event_SourceComplete:
-		if err := r.operators.broadcastEvent(typedEvent.SourceComplete); err != nil {
+		if err := operators.broadcastEvent(typedEvent.SourceComplete); err != nil {
 			return err
 		}
-		r.operators.flush()
+		operators.flush()
 		return nil
 	default:
 		return fmt.Errorf("unknown operator event type: %T", typedEvent)
